@@ -11,6 +11,7 @@ package walrec
 import (
 	"fmt"
 	"io"
+	"math"
 	"sort"
 	"strconv"
 	"strings"
@@ -74,7 +75,11 @@ func Decode(r *wlog.Reader, sortAll, sortMeta bool) (string, error) {
 			}
 			es := make([]entry, len(ss))
 			for i, s := range ss {
-				es[i] = entry{uint64(s.Ref), fmt.Sprintf("%d@%d=%d", s.Ref, s.T, int64(s.V))}
+				v := s.V
+				if math.IsNaN(v) {
+					v = 0 // stale marker
+				}
+				es[i] = entry{uint64(s.Ref), fmt.Sprintf("%d@%d=%d", s.Ref, s.T, int64(v))}
 			}
 			recs = append(recs, join("F", es, sortAll))
 		case record.HistogramSamples, record.HistogramSamplesV2, record.CustomBucketsHistogramSamples:
@@ -129,7 +134,7 @@ func Decode(r *wlog.Reader, sortAll, sortMeta bool) (string, error) {
 				}
 				es[i] = entry{uint64(s.Ref), fmt.Sprintf("%d:%s", s.Ref, strings.Join(ivs, "+"))}
 			}
-			recs = append(recs, join("T", es, sortAll))
+			recs = append(recs, join("T", es, true)) // eviction writes its stones in Go map order
 		case record.Metadata:
 			ss, err := dec.Metadata(rec, nil)
 			if err != nil {
